@@ -213,11 +213,11 @@ def viaWrites (T : Tool) (outDir rdfDir f : Path) (cf cc : Option Bytes) :
   | .ok none =>
     match T.render (convOut outDir f) cc with
     | .error _ => ([], .rdfError)
-    | .ok d2 => ([(rdfOut rdfDir (convOut outDir f), d2)], .convertedExported)
+    | .ok d2 => ([(rdfOut rdfDir f, d2)], .convertedExported)
   | .ok (some d) =>
     match T.render (convOut outDir f) (some d) with
     | .error _ => ([(convOut outDir f, d)], .rdfError)
-    | .ok d2 => ([(convOut outDir f, d), (rdfOut rdfDir (convOut outDir f), d2)], .convertedExported)
+    | .ok d2 => ([(convOut outDir f, d), (rdfOut rdfDir f, d2)], .convertedExported)
 
 def rdfWrites (T : Tool) (outDir rdfDir f : Path) (cf cc : Option Bytes) :
     List (Path × Bytes) × Report :=
@@ -451,31 +451,17 @@ theorem rdfOut_inj (d a b : Path) (h : rdfOut d a = rdfOut d b) : stem a = stem 
   simp only [List.cons.injEq, true_and] at h1
   exact List.append_cancel_right h1
 
-/-- With the RDF directory inside the out directory: distinct base names, neither of which is the
-    other followed by `_conv`, give disjoint output paths. -/
-theorem rdfOuts_disjoint (outDir r f g : Path) (h1 : stem f ≠ stem g)
-    (h2 : stem f ≠ stem g ++ "_conv".toList) (h3 : stem g ≠ stem f ++ "_conv".toList) :
+/-- With the RDF directory inside the out directory: distinct base names give disjoint output
+    paths (the RDF file of a converted file is named after the original file). -/
+theorem rdfOuts_disjoint (outDir r f g : Path) (h1 : stem f ≠ stem g) :
     ∀ p ∈ rdfOuts outDir (outDir ++ '/' :: r) f, p ∉ rdfOuts outDir (outDir ++ '/' :: r) g := by
   intro p hp hq
   simp only [rdfOuts, List.mem_cons, List.mem_nil_iff, or_false] at hp hq
-  have hcc : stem f ++ "_conv".toList ≠ stem g ++ "_conv".toList :=
-    fun h => h1 (List.append_cancel_right h)
-  rcases hp with rfl | rfl | rfl <;> rcases hq with hq | hq | hq
+  rcases hp with rfl | rfl <;> rcases hq with hq | hq
   · exact h1 (convOut_inj outDir f g hq)
   · exact convOut_ne_rdfOut outDir r f g hq
-  · exact convOut_ne_rdfOut outDir r f _ hq
   · exact convOut_ne_rdfOut outDir r g f hq.symm
   · exact h1 (rdfOut_inj _ f g hq)
-  · have := rdfOut_inj _ f _ hq
-    rw [stem_convOut] at this
-    exact h2 this
-  · exact convOut_ne_rdfOut outDir r g _ hq.symm
-  · have := rdfOut_inj _ _ g hq
-    rw [stem_convOut] at this
-    exact h3 this.symm
-  · have := rdfOut_inj _ _ _ hq
-    rw [stem_convOut, stem_convOut] at this
-    exact hcc this
 
 end Batch
 
